@@ -133,3 +133,7 @@ V('C01', 'nc-index-match-separator-as-keyword-space', CG,
   "            self.write(' ')\n            self.visit(node.valid_type)",
   "            self._write_keywords(' ')\n            self.visit(node.valid_type)",
   None)
+
+# round 5: the stored seeded breaks this property's check reports, replayed as variants
+from sa.selftest import VP  # noqa
+VP('C01', 'C01-e3', 'C01.R12', 'name-quoted')
